@@ -100,18 +100,20 @@ def run(ctx, replay=None):
     if replay is None:
         from . import repo
         plans = [dict(shape="chain", max_env=2, flags="m,c", extra="a;c,m,o", faults=False),
-                 dict(shape="star", max_env=1, flags="m,c,o", faults=False, env="Edit,Touch,DeleteArt,StripKey,SetIssuer,RemoveConfig,AddConfig")]
+                 dict(shape="star", max_env=1, flags="m,c,o", faults=False, env="Edit,Touch,DeleteArt,StripKey,SetIssuer,RemoveConfig,AddConfig"),
+                 dict(shape="deep", max_env=1, flags="m,c", extra="c,m,o", faults=False, env="Edit,Touch,DeleteArt,StripKey")]     # four tiers
         if not ctx.quick:
             plans = [dict(shape="chain", max_env=3, flags="m,c,o", extra="a;e,m", faults=False),
                      dict(shape="star", max_env=2, flags="m,c,o,e", faults=False, env="Edit,Touch,DeleteArt,StripKey,SetIssuer,RemoveConfig,AddConfig,Expire"),
-                     dict(shape="two", max_env=2, flags="m,c,o", extra="a", faults=False, env="Edit,Touch,DeleteArt,StripKey,SetIssuer,Replace")]
+                     dict(shape="two", max_env=2, flags="m,c,o", extra="a", faults=False, env="Edit,Touch,DeleteArt,StripKey,SetIssuer,Replace"),
+                     dict(shape="deep", max_env=2, flags="m,c,o", extra="a", faults=False, env="Edit,Touch,DeleteArt,StripKey,SetIssuer")]
         nlines = 0
         for i, kw in enumerate(plans):
             lines, _ = repo.explore(ctx, "c11ex%d" % i, **kw)
             failed = repo.judge(ctx, lines, kw["shape"], "c11ex%d" % i)
             repo.report(ctx, PROP, lines, failed, kw["shape"])
             nlines += len(lines)
-        slice_cov = {"filesystem_slice_steps": nlines, "filesystem_slice": "runs after every user action (chain, star%s): plan set, plan order, write order, change type" % ("" if ctx.quick else ", two roots")}
+        slice_cov = {"filesystem_slice_steps": nlines, "filesystem_slice": "runs after every user action (chain, star, four tiers%s): plan set, plan order, write order, change type" % ("" if ctx.quick else ", two roots")}
 
     cov = {
         **slice_cov,
